@@ -20,3 +20,4 @@ def run(model, rep, tier):
     A(editrules.c14_obligations, model, rep, r)
     A(editrules.child_types_rule, model, rep)
     A(editrules.relink_rule, model, rep, r, "R3")
+    A(editrules.link_direction_rule, model, rep, r, "R3")
